@@ -18,6 +18,8 @@ CONSTANTS
   LateEnqueue = TRUE
   ContinueAfterOversize = FALSE
   UnknownKills = FALSE
+  Faults = FALSE
+  Sticky = FALSE
 INVARIANTS OwnReply
 
 VIEW View
